@@ -1,3 +1,4 @@
+import re
 """Engine D: tables.  Initialiser lists and enums read from the AST (values as clang evaluated them),
 CSV files, the Perl generators' parameters, Makefile rules."""
 import csv, os, re
@@ -44,6 +45,11 @@ def const_value(n, enums):
     if k == 'BinaryOperator':
         a = const_value(n['inner'][0], enums); b = const_value(n['inner'][1], enums)
         return {'+': a + b, '-': a - b, '*': a * b, '|': a | b, '<<': a << b, '&': a & b}[n['opcode']]
+    if k == 'UnaryExprOrTypeTraitExpr' and n.get('name') == 'sizeof':
+        t = (n.get('argType') or {}).get('qualType') or (strip(n['inner'][0]).get('type', {}).get('qualType') if n.get('inner') else '') or ''
+        m = re.fullmatch(r'(?:const )?(?:unsigned |signed )?char ?\[(\d+)\]', t)
+        if m: return int(m.group(1))
+        if t in ('char', 'unsigned char', 'signed char', 'const char'): return 1
     raise AnalysisBroken(f'unsupported constant initialiser {k}')
 
 
